@@ -142,6 +142,15 @@ func init() {
 		if m.cfg("oauth.tokenInvalid") {
 			return m.newError("verify OAuth: invalid token")
 		}
+		// with a designated good token (vx.Register("oauth.goodToken", header)):
+		// exactly that Authorization header verifies
+		if g, ok := m.env["reg:oauth.goodToken"]; ok {
+			gs, _ := concreteStr(g.(Iface).V)
+			ts, isConc := concreteStr(args[0])
+			if !isConc || ts != gs {
+				return m.newError("verify OAuth: signature does not verify")
+			}
+		}
 		return Iface{}
 	}
 
